@@ -71,6 +71,7 @@ type eagrCfg struct {
 	maxRound     basics.Round // a node whose round exceeds maxRound becomes passive
 	maxPeriod    period       // a node whose period exceeds maxPeriod becomes passive
 	proposers    []bool       // which nodes assemble proposals in period 0 (nil: all)
+	noProposalTo []bool       // nodes that are cut off from period-0 proposal payloads (nil: none)
 	entropy      uint64       // RandomEntropy of timeout events
 	diff         *eagrDiffer  // C07 differential hook (nil: off)
 	virtualTime  bool         // deadlines are compared with a virtual clock (DFS); false: Since()=0
@@ -111,11 +112,37 @@ type eagrNode struct {
 	keySum [32]byte
 }
 
+// deviation kinds of the lock-step explorer
+const (
+	eagrDevDrop = iota
+	eagrDevHold
+	eagrDevReorder
+	eagrDevDup
+	eagrDevCrash
+	eagrDevByz
+	eagrDevSkew
+	eagrDevFast
+	eagrNDev
+)
+
+var eagrDevNames = [eagrNDev]string{"drop", "hold-past-timeout", "reorder", "dup", "crash", "byz", "skew", "fast"}
+
+type eagrDevs [eagrNDev]int8
+
+func (d eagrDevs) total() int {
+	t := 0
+	for _, x := range d {
+		t += int(x)
+	}
+	return t
+}
+
 type eagrFlight struct {
-	m   *eagrMsg
-	dst int
-	src int
-	seq int
+	m      *eagrMsg
+	dst    int
+	src    int
+	seq    int
+	parked bool // lock-step explorer: held back until after the next tick
 }
 
 // eagrSys is the global state.
@@ -128,7 +155,8 @@ type eagrSys struct {
 	sent    map[string]bool // forward suppression: msg id + dst ever enqueued (only if cfg.forward)
 	values  map[proposalValue]bool
 	barrier int // lock-step explorer: flight entries with seq <= barrier are eligible in this sub-phase
-	defers  int // lock-step explorer: deferrals used
+	devs    eagrDevs // lock-step explorer: deviations used so far, by kind
+	subStart bool    // lock-step explorer: no message of the current delivery sub-phase was handled yet
 
 	// accumulated observations of one execution (DFS); BFS evaluates per transition instead
 	stats eagrStats
@@ -137,7 +165,7 @@ type eagrSys struct {
 type eagrStats struct {
 	submits, deliveries, timeouts, fastTimeouts, crashes, restoresFromDisk, restoresFresh int64
 	commits, attests, persists, released, forwardsSuppressed, ignores, byzVotes     int64
-	period1, bundlesSent, verifyFail                                                  int64
+	period1, bundlesSent, verifyFail, equivocations                                   int64
 }
 
 func (a *eagrStats) add(b *eagrStats) {
@@ -158,6 +186,7 @@ func (a *eagrStats) add(b *eagrStats) {
 	a.period1 += b.period1
 	a.bundlesSent += b.bundlesSent
 	a.verifyFail += b.verifyFail
+	a.equivocations += b.equivocations
 }
 
 // eagrSub records one submitTop call.
@@ -231,7 +260,7 @@ func (n *eagrNode) clone() *eagrNode {
 
 // clone copies the system; nodes are shared (copy-on-write: call own(j) before mutating node j).
 func (s *eagrSys) clone() *eagrSys {
-	c := &eagrSys{cfg: s.cfg, now: s.now, seq: s.seq, barrier: s.barrier, defers: s.defers}
+	c := &eagrSys{cfg: s.cfg, now: s.now, seq: s.seq, barrier: s.barrier, devs: s.devs, subStart: s.subStart}
 	c.nodes = append([]*eagrNode(nil), s.nodes...)
 	c.flight = append([]eagrFlight(nil), s.flight...)
 	if s.sent != nil {
@@ -278,11 +307,13 @@ func (n *eagrNode) since(s *eagrSys, zero int64) time.Duration {
 func (n *eagrNode) attach(s *eagrSys, e externalEvent) externalEvent {
 	proto, err := n.led.ConsensusVersion(ParamsRound(e.ConsensusRound()))
 	e = e.AttachConsensusVersion(ConsensusVersionView{Err: makeSerErr(err), Version: proto})
-	hist := map[basics.Round]roundStartTimer{}
-	for r, z := range n.hist {
-		hist[r] = constantRoundStartTimer(n.since(s, z))
+	getClock := func(r basics.Round) roundStartTimer {
+		hist := map[basics.Round]roundStartTimer{}
+		for hr, z := range n.hist {
+			hist[hr] = constantRoundStartTimer(n.since(s, z))
+		}
+		return clockForRound(n.p.Round, constantRoundStartTimer(n.since(s, n.zero)), hist)(r)
 	}
-	getClock := clockForRound(n.p.Round, constantRoundStartTimer(n.since(s, n.zero)), hist)
 	switch e.t() {
 	case payloadVerified:
 		e = e.(messageEvent).AttachValidatedAt(getClock)
@@ -612,6 +643,9 @@ func (s *eagrSys) sendAll(src int, m *eagrMsg, h MessageHandle) {
 		if dst == src {
 			continue
 		}
+		if s.cfg.noProposalTo != nil && s.cfg.noProposalTo[dst] && m.tag == protocol.ProposalPayloadTag && m.compound.Proposal.OriginalPeriod == 0 && s.nodes[src].p.Period == 0 {
+			continue
+		}
 		if h != nil {
 			if !s.cfg.forward {
 				s.stats.forwardsSuppressed++
@@ -629,7 +663,21 @@ func (s *eagrSys) sendAll(src int, m *eagrMsg, h MessageHandle) {
 	}
 }
 
+// msgRound returns the round a message belongs to.
+func (m *eagrMsg) round() basics.Round {
+	switch m.tag {
+	case protocol.AgreementVoteTag:
+		return m.vote.R.Round
+	case protocol.VoteBundleTag:
+		return m.bundle.Round
+	}
+	return m.compound.Proposal.Round()
+}
+
 func (s *eagrSys) enqueue(src int, m *eagrMsg, dst int) {
+	if m.round() > s.cfg.maxRound {
+		return // traffic of rounds beyond the explored ones
+	}
 	if s.sent != nil {
 		s.sent[m.ID()+string(rune('0'+dst))] = true
 	}
@@ -813,6 +861,12 @@ func (n *eagrNode) key(b []byte) []byte {
 
 func (n *eagrNode) key0(b []byte) []byte {
 	b = append(b, byte(n.id), '|')
+	if n.passive {
+		// a passive node takes no further part (it left the explored rounds/periods): only what it
+		// committed can still matter
+		b = append(b, 'P')
+		return n.led.digestKey(b)
+	}
 	b = binary.LittleEndian.AppendUint64(b, uint64(n.zero))
 	b = n.stateBytes(b)
 	b = n.led.digestKey(b)
@@ -845,12 +899,22 @@ func (s *eagrSys) key() [16]byte {
 		sort.Slice(fs, func(i, j int) bool { return fs[i].seq < fs[j].seq })
 		el := 0
 		for _, f := range fs {
-			fl = append(fl, string(f.m.id[:])+string(rune('0'+f.dst)))
-			if f.seq <= s.barrier {
+			pk := ""
+			if f.parked {
+				pk = "P"
+			}
+			fl = append(fl, string(f.m.id[:])+string(rune('0'+f.dst))+pk)
+			if f.seq <= s.barrier && !f.parked {
 				el++
 			}
 		}
-		b = append(b, byte(el), byte(s.defers))
+		b = append(b, byte(el))
+		for _, d := range s.devs {
+			b = append(b, byte(d))
+		}
+		if s.subStart {
+			b = append(b, 1)
+		}
 	} else {
 		for _, f := range s.flight {
 			fl = append(fl, string(f.m.id[:])+string(rune('0'+f.dst)))
